@@ -440,7 +440,10 @@ def _rand_ip(rng):
         return rng.choice(["10.1.2.3", "192.0.2.7", "2001:db8::5"])
     if r < 0.7:
         return ".".join(str(rng.choice([0, 1, 9, 10, 99, 100, 127, 128, 200, 255, rng.randint(0, 255)])) for _ in range(4))
-    if r < 0.8:
+    if r < 0.76:
+        # IPv4-mapped / IPv4-compatible IPv6 addresses: still looked up under ip6.arpa
+        return "::%s%s" % (rng.choice(["ffff:", "ffff:", ""]), ".".join(str(rng.randint(1, 255)) for _ in range(4)))
+    if r < 0.83:
         return str(ipaddress.ip_address(rng.getrandbits(128)))
     b = bytearray(16)
     b[0:2] = rng.choice([b"\x20\x01", b"\xfe\x80", b"\xfd\x00", b"\x00\x00"])
